@@ -52,6 +52,12 @@ func init() {
 		body += "Definition register_public_own_test : string := " + coqStr(ownFlag) + ".\n"
 		body += "Definition register_public_passes : string := " + coqStr(passOn) + ".\n"
 		body += "Definition register_chain_key_callers : list string := " + coqStrList(callers) + ".\n"
+		// the receive path: OpenEnvelopePayload is one critical section of the message mutex around the key look-up,
+		// the opening and the bookkeeping that follows it
+		openFd := funcDecl(f, "secretStore", "OpenEnvelopePayload")
+		body += "\n(* OpenEnvelopePayload: mutex operations and the two helper calls in source order; is the method one critical section from\n   its first to its last statement? *)\n"
+		body += "Definition skel_open : list string := " + coqStrList(skeletonWithCalls(openFd, []string{"openPayload", "postDecryptActions"})) + ".\n"
+		body += "Definition open_critical : string := " + coqStr(critSection(openFd)) + ".\n"
 		write("Seal.v", body)
 	})
 }
